@@ -126,7 +126,7 @@ def perform(ch, req):
             arr = ch[sl]
         elif k == "index":
             v = ch[req["i"]]
-            return {"data": [proj._scalar(v)], "dtype": "scalar"}
+            return {"data": [proj.indexed_scalar(v)], "dtype": "scalar"}
         else:
             raise AssertionError(k)
         return {"data": proj.elems(arr), "dtype": proj.norm_dtype(arr.dtype) if hasattr(arr, "dtype") else "list"}
@@ -235,7 +235,9 @@ def record_footprint_case(case):
     """worker for C19: one shape -> one trace: all windows and indices of the shape executed on ONE lazily opened
     file over a recording stream; every step logs the reads the library issued."""
     from nptdms import TdmsFile
-    from .recstream import RecordingStream
+    from .recstream import RecordingStream, RawRecordingStream
+    if case.get("variant", 0) % 2 == 1:
+        RecordingStream = RawRecordingStream          # noqa: every other shape is served through a raw stream
     rec = case["rec"]
     seed = case["seed"]
     if not rec["shape"]["segs"] or rec["len"] == 0:
